@@ -20,6 +20,9 @@ SUBMISSIONS = {
     # the sandbox's module-table patch, so the module stays loaded and keeps its state)
     "modsetT": "import calendar\ncalendar.setfirstweekday(6)\nprint('set')\n",
     "modget": "import calendar\nprint(calendar.firstweekday())\n",
+    # two submissions of the same file that take different branches (what a statement-coverage measurement sees)
+    "branch_else": "x = 0\nif x:\n    y = 2\nelse:\n    y = 3\nprint(y)\n",
+    "branch_if": "x = 1\nif x:\n    y = 2\nelse:\n    y = 3\nprint(y)\n",
     "realmut": "import math\nmath.pi = 3\nprint(math.pi)\n",
     "mathy": "import math\narea = math.pi * 2 ** 2 + 1\nprint(area)\n",
     # attribute assignments on values of builtin types: TIFA records them in the value's method table
@@ -81,6 +84,8 @@ SCRIPTS = {
               "Pool('P1', [qa, qb]).choose().ask()\n"),
     # graded WITHOUT the automatic TIFA run (skip_tifa=True): TIFA would import the student's modules for real itself
     "plain_notifa": ("from pedal import *\nrun()\n"),
+    # measures statement coverage of the student's program with the sandbox's coverage tracer and demands 90 %
+    "cover": ("from pedal import *\nfrom pedal.sandbox.commands import start_trace\nstart_trace('coverage')\nstudent = run()\nensure_coverage(.9)\n"),
     "raiser_b": ("from pedal import *\ndef broken(x):\n    return int('not a number (script B)')\n"
                  "mock_function('len', broken)\nrun()\n"),
 }
@@ -193,8 +198,13 @@ def baseline(pair):
     code = ("import sys, json; sys.path.insert(0, %r); sys.path.insert(0, %r); import os; os.environ['PEDAL_EDU_PEDAL_VERIF']='1';"
             "from bind import grading as G; print('@@' + json.dumps(G.grade(%r, %r), default=repr))") % (
         os.environ.get("VERIF_REPO", "/repo"), ROOT, pair[0], pair[1])
-    p = subprocess.run(["/venv/bin/python", "-c", code], stdout=subprocess.PIPE, stderr=subprocess.PIPE, text=True,
-                       timeout=120, env=dict(os.environ, PYTHONHASHSEED="0"))
+    import tempfile, shutil
+    tmp = tempfile.mkdtemp(prefix="vbase")
+    try:
+        p = subprocess.run(["/venv/bin/python", "-c", code], stdout=subprocess.PIPE, stderr=subprocess.PIPE, text=True,
+                           timeout=120, env=dict(os.environ, PYTHONHASHSEED="0"), cwd=tmp)
+    finally:
+        shutil.rmtree(tmp, ignore_errors=True)
     for line in p.stdout.splitlines():
         if line.startswith("@@"):
             return json.loads(line[2:])
@@ -220,11 +230,16 @@ def history_chunk(cases, extra):
         if pid == 0:
             try:
                 os.close(r)
+                # (coverage.py writes its data file into the working directory: one directory per history)
+                import tempfile
+                os.chdir(tempfile.mkdtemp(prefix="vgrade"))
                 res = run_history([tuple(x) for x in rec["hist"]])
                 os.write(w, json.dumps(res, default=repr).encode())
             except BaseException as e:
                 os.write(w, json.dumps({"crash": "%s: %s" % (type(e).__name__, e)}).encode())
             finally:
+                import shutil
+                shutil.rmtree(os.getcwd(), ignore_errors=True) if os.path.basename(os.getcwd()).startswith("vgrade") else None
                 os._exit(0)
         os.close(w)
         buf = b""
